@@ -27,9 +27,11 @@
 namespace {
 
 // op alphabet, simplest first
-enum Op : char { NEW = 'n', MAL = 'm', FREE_OWN = 'f', FREE_OLD = 'F', EXP1 = '1', EXP2 = '2', IGN = 'I', FAILCHK = 'X', REALLOC_FAILS = 'R' };
-const char OPS[] = {NEW, MAL, FREE_OWN, FREE_OLD, EXP1, EXP2, IGN, FAILCHK, REALLOC_FAILS};
-constexpr int NOPS = 9;
+enum Op : char { NEW = 'n', MAL = 'm', FREE_OWN = 'f', FREE_OLD = 'F', EXP1 = '1', EXP2 = '2', IGN = 'I', FAILCHK = 'X', REALLOC_FAILS = 'R', REALLOC = 'r' };
+const char OPS[] = {NEW, MAL, FREE_OWN, FREE_OLD, EXP1, EXP2, IGN, FAILCHK, REALLOC_FAILS, REALLOC};
+constexpr int NOPS = 10;
+// r: successful realloc of the oldest live malloc block of an earlier test (else of the test's own newest malloc block) to a
+// new size: the old block is released and the result is a block of the test that reallocated it
 // R: realloc of the oldest live malloc block of an earlier test (else of the test's own newest malloc block) for which the
 // underlying reallocation fails: the caller gets NULL and the block stays exactly what it was, with the test it belongs to
 void* realloc_fails(void*, size_t) { return nullptr; }
@@ -69,6 +71,16 @@ void run_phase(int phase) {
             g_blocks[k].live = false;
             if (g_blocks[k].fam == NEW) operator delete(g_blocks[k].p); else cpputest_free_location(g_blocks[k].p, "script.c", 78);
             break; }
+        case REALLOC: {
+            int k = -1;
+            for (int b = 0; b < g_nblocks; b++) if (g_blocks[b].live && g_blocks[b].fam == MAL && g_blocks[b].owner < t) { k = b; break; }
+            if (k < 0) for (int b = g_nblocks - 1; b >= 0; b--) if (g_blocks[b].live && g_blocks[b].fam == MAL && g_blocks[b].owner == t) { k = b; break; }
+            if (k < 0) break;
+            int size = g_size_next++;
+            char* p = (char*)cpputest_realloc_location(g_blocks[k].p, (size_t)size, "script.c", 80);
+            g_blocks[k].live = false;
+            g_blocks[g_nblocks++] = Block{p, size, MAL, t, true};
+            break; }
         case REALLOC_FAILS: {
             int k = -1;
             for (int b = 0; b < g_nblocks; b++) if (g_blocks[b].live && g_blocks[b].fam == MAL && g_blocks[b].owner < t) { k = b; break; }
@@ -106,7 +118,7 @@ struct Recorder : StringBufferTestOutput {
 struct RefTest { int own_failures = 0; bool leak_failure = false; std::vector<int> leaked_sizes; };
 struct RefProg { RefTest t[3]; std::vector<int> final_outstanding; };
 RefProg reference(const Program& p) {
-    RefProg r; struct B { int size, owner; bool live; }; std::vector<B> blocks; int size_next = 11;
+    RefProg r; struct B { int size, owner; bool live; bool mal; }; std::vector<B> blocks; int size_next = 11;
     for (int t = 0; t < p.ntests; t++) {
         const TestScript& s = p.tests[t];
         int expected = 0; bool ignore = false; bool setup_ok = true;
@@ -116,10 +128,17 @@ RefProg reference(const Program& p) {
                 if (s.steps[i].phase != phase) continue;
                 char op = s.steps[i].op; bool aborted = false;
                 switch (op) {
-                case NEW: case MAL: blocks.push_back({size_next++, t, true}); break;
+                case NEW: case MAL: blocks.push_back({size_next++, t, true, op == MAL}); break;
                 case FREE_OWN: { for (int b = (int)blocks.size() - 1; b >= 0; b--) if (blocks[b].live && blocks[b].owner == t) { blocks[b].live = false; break; } break; }
                 case FREE_OLD: { for (size_t b = 0; b < blocks.size(); b++) if (blocks[b].live && blocks[b].owner < t) { blocks[b].live = false; break; } break; }
                 case REALLOC_FAILS: break;      // nothing changes
+                case REALLOC: {
+                    int k = -1;
+                    for (size_t b = 0; b < blocks.size(); b++) if (blocks[b].live && blocks[b].mal && blocks[b].owner < t) { k = (int)b; break; }
+                    if (k < 0) for (int b = (int)blocks.size() - 1; b >= 0; b--) if (blocks[b].live && blocks[b].mal && blocks[b].owner == t) { k = b; break; }
+                    if (k < 0) break;
+                    blocks[k].live = false; blocks.push_back({size_next++, t, true, true});
+                    break; }
                 case EXP1: expected = 1; break;
                 case EXP2: expected = 2; break;
                 case IGN: ignore = true; break;
@@ -138,7 +157,7 @@ RefProg reference(const Program& p) {
 std::string render(const Program& p) {
     std::string o; const char* ph = "sbt";
     for (int t = 0; t < p.ntests; t++) { o += "["; for (int i = 0; i < p.tests[t].n; i++) { o += ph[(int)p.tests[t].steps[i].phase]; o += ':'; o += p.tests[t].steps[i].op; o += ' '; } o += "] "; }
-    return o + "(n new, m malloc, f free own newest, F free oldest block of an earlier test, R failing realloc of the oldest malloc block of an earlier test (else own newest), 1/2 EXPECT_N_LEAKS, I IGNORE_ALL_LEAKS, X fail own check; s/b/t = setup/body/teardown)";
+    return o + "(n new, m malloc, f free own newest, F free oldest block of an earlier test, R failing / r successful realloc of the oldest malloc block of an earlier test (else own newest), 1/2 EXPECT_N_LEAKS, I IGNORE_ALL_LEAKS, X fail own check; s/b/t = setup/body/teardown)";
 }
 std::vector<int> parse_sizes(const char* text) { std::vector<int> v; const char* p = text; while ((p = strstr(p, "Leak size: "))) { v.push_back(atoi(p + 11)); p += 11; } std::sort(v.begin(), v.end()); return v; }
 int parse_total(const char* text) { if (strstr(text, "No memory leaks were detected")) return 0; const char* p = strstr(text, "Total number of leaks:"); return p ? atoi(p + 22) : -1; }
@@ -226,7 +245,7 @@ int main(int argc, char** argv) {
     g_det = MemoryLeakWarningPlugin::getGlobalDetector();
     g_plugin = new (g_plugin_mem) MemoryLeakWarningPlugin("leakcheck");       // first (and only) plugin object: EXPECT_N_LEAKS/IGNORE_ALL_LEAKS address it
     bool T = vf::thorough();
-    vf::info("rule", "programs of scripted tests under the real leak plugin; a script is a sequence of ops from {new, malloc, free own newest, free oldest block of an earlier test, failing realloc of an earlier (else own) malloc block, EXPECT_N_LEAKS(1), EXPECT_N_LEAKS(2), IGNORE_ALL_LEAKS_IN_TEST, fail own check}, each placed in setup/body/teardown (phases non-decreasing); non-trivial = some test must get a leak failure");
+    vf::info("rule", "programs of scripted tests under the real leak plugin; a script is a sequence of ops from {new, malloc, free own newest, free oldest block of an earlier test, failing realloc and successful realloc of an earlier (else own) malloc block, EXPECT_N_LEAKS(1), EXPECT_N_LEAKS(2), IGNORE_ALL_LEAKS_IN_TEST, fail own check}, each placed in setup/body/teardown (phases non-decreasing); non-trivial = some test must get a leak failure");
     std::vector<TestScript> s2, s3; build_scripts(2, s2); build_scripts(3, s3);
     long n2 = (long)s2.size(), n3 = (long)s3.size();
     vf::info("single.bound", vf::fmt("1 test, all %ld scripts with <= 3 ops", n3));
